@@ -95,12 +95,17 @@ CLAIMED = {
             "writes nothing else. chi-square = sum of squares and bounds are lmfit's assumed contract, checked "
             "numerically (bounded).", "3 C04"),
     "C05": ("other", "contract-based deductive verification: mask postcondition of IndentationFitter.fit (absolute and "
-            "contact-point-relative ranges, _fit under contract with ghost pass log), use/xmin/xmax clauses of _fit "
-            "with definitional min/max axioms; bounded stand-in for the plateau search",
+            "contact-point-relative ranges and the modulus-plateau search; the fitter built by the real __init__, _fit "
+            "under contract with ghost pass log), the plateau scan compute_emodulus_vs_mindelta (loop verified for one "
+            "arbitrary iteration), use/xmin/xmax clauses of _fit with definitional min/max axioms; bounded stand-in "
+            "for the plateau detection (filters, labelling)",
             "For every curve, segment, interval (closed, inverted, zero-width, ends on samples) the points handed "
             "to the optimiser are exactly segment AND interval; relative ranges are anchored at the previously "
-            "fitted contact point in each of the four passes; xmin/xmax are attained extreme abscissae in "
-            "uncorrected units. The plateau search (filters, labelling) is external numerics and is bounded.",
+            "fitted contact point in every refinement pass; xmin/xmax are attained extreme abscissae in uncorrected "
+            "units; with the plateau search the scan has the requested number of samples on a monotonic grid inside "
+            "the measured depths, every scan fit uses [depth, upper bound], and the final fit starts at the reported "
+            "optimal indentation, which lies inside the scanned depths. Which depth the plateau detection picks "
+            "(Butterworth filter, labelling) is assumed to lie between the scan's extremes and is bounded.",
             "3 C05"),
     "C10": ("proof", "contract-based deductive verification: frame (mutation log) and ownership (object identity) "
             "obligations generated by the symbolic executor on the real bodies of every API function taking a "
@@ -111,11 +116,13 @@ CLAIMED = {
             "(initial parameters) is a fresh copy, so an in-place edit is noticed when passed again.", "3 C10"),
     "C11": ("proof", "contract-based deductive verification: homogeneity lemma per power-law model over the C02 "
             "postconditions (z3 nlsat with a pow-multiplicativity instance) plus unit and frame obligations on the "
-            "real _fit/fit under the assumed lmfit.minimize contract; bounded k-vs-1 fits",
+            "real _fit/fit (fitter built by the real __init__) under the assumed lmfit.minimize contract, and the "
+            "plateau scan grid as a function of the measured abscissa only; bounded k-vs-1 fits incl. plateau search",
             "For all k > 0: M(k x; E k^-p, k cp, b) = M(x; E, cp, b), so minimisers correspond; lmfit gets x*k "
             "and the initial contact point scaled exactly once in every pass (initial parameters are never "
             "written to), reported cp, xmin, xmax are converted back to measured units, the fit column is the "
-            "model at k*x. That the optimiser returns corresponding minimisers is assumed and exercised bounded.",
+            "model at k*x, the plateau scan depths do not depend on k. That the optimiser returns corresponding "
+            "minimisers is assumed and exercised bounded.",
             "3 C11"),
     "C20": ("other", "contract-based deductive verification of nanite's glue code: progress arithmetic of load_data for a "
             "symbolic file index (loop body executed once for an arbitrary iteration), append precondition, "
@@ -148,22 +155,28 @@ CLAIMED = {
             "3 C07"),
     "C08": ("other", "contract-based deductive verification: index-range / fallback / frame / totality contracts on "
             "compute_poc, the clip and the two closed-form estimators (reductions by their defining axioms), and "
-            "relational scale/offset invariance by self-composition (f and a*f+b in one path, lemma chain); bounded "
-            "stand-in for the four estimators built on Nelder-Mead fits and filters",
+            "relational scale/offset invariance by self-composition (f and a*f+b in one path, lemma chain); the three "
+            "piecewise fits up to and after the optimiser (lmfit.minimize under an assumed contract whose "
+            "precondition 'numbers only' is the obligation; relational: the optimiser is handed the same problem "
+            "for f and a*f+b); bounded stand-in for accuracy, the Nelder-Mead results and the gradient estimator",
             "For force arrays of any length: compute_poc returns a valid index of the original array, NaN falls back "
-            "to the middle of the clipped data, unknown methods raise, inputs are untouched; deviation-from-baseline "
-            "returns the first sample above mean + 2 max deviation and the same index for a*f+b (a>0); the Frechet "
-            "estimator is total and invariant for non-constant data. Accuracy and the fit-based estimators are "
+            "and so does an estimate outside the data, unknown methods raise, inputs are untouched (every estimator "
+            "under the contract 'NaN or some integer'); deviation-from-baseline and the Frechet estimator give the "
+            "same index for a*f+b (a>0) and are total; the piecewise fits feed no 0/0 to the optimiser and hand it "
+            "the same data, initial values and bounds for f and a*f+b. Accuracy and what Nelder-Mead returns are "
             "bounded (fractions measured on the pinned tree, stated in the code).", "3 C08"),
     "C17": ("other", "contract-based deductive verification: selection/ordering contracts of get_feature_names and "
             "compute_features (feature bodies under contract, introspection modelled by the class's own methods), "
-            "guard and predicate totality of all feat_* for every state of the fit properties, syntactic purity, "
-            "closed-form range lemmas; bounded numeric checks on fitted curves",
+            "guard and predicate totality of all feat_* for every state of the fit properties, syntactic purity; "
+            "the fifteen feat_* bodies executed symbolically on a fitted curve with symbolic approach arrays "
+            "(external filters / lstsq / std under assumed contracts, numpy division semantics) for totality, "
+            "no +-inf and the stated ranges; bounded numeric checks on fitted and synthetic curves",
             "For every type/name selection the names are sorted, duplicate-free and exactly the requested ones, "
             "values come in that order and indices match; without a usable fit every fit-dependent feature "
-            "returns NaN without reading data or raising; accessors copy and nothing is stored into the curve; "
-            "fraction features lie in [0,1]. Numeric ranges, scale and segment independence involve gaussian "
-            "filters, lstsq and std (external numerics) and are bounded.", "3 C17"),
+            "returns NaN without raising; accessors copy and nothing is stored into the curve; on a fitted curve "
+            "with a positive, non-constant approach force no feature raises, none is +-inf, fractions lie in [0,1] "
+            "and magnitudes are non-negative (for arrays of any length). Scale and segment independence involve "
+            "the numeric content of gaussian filters, lstsq and std (external) and are bounded.", "3 C17"),
     "C15": ("other", "contract-based deductive verification: the cleaning pipeline of IndentationRater.load_training_set "
             "symbolically executed on a matrix with a symbolic number of rows (2-D pointwise arrays, NaN flags, "
             "infinity signs with IEEE inf-arithmetic), all flag combinations; bounded stand-ins for the text round "
@@ -175,13 +188,14 @@ CLAIMED = {
             "np.savetxt/loadtxt, compute_sample_weight and the export are exercised bounded.", "3 C15"),
     "C16": ("other", "contract-based deductive verification: write-set / frame / refusal postconditions and a crash "
             "invariant (exception injected at every write point, symbolically) for the real save_hdf5 on a finite-map "
-            "model of the HDF5 container, reader/writer key correspondence for the real load_hdf5, string lemmas for "
-            "the text codecs; bounded runs with real h5py incl. native failure injection",
-            "For every container state: a new entry gets exactly the six datasets and one attribute per fit property, "
+            "model of the HDF5 container, the crash invariant decided by executing the real load_hdf5 on the container "
+            "the interrupted save leaves behind (composition), reader/writer key correspondence for load_hdf5, string "
+            "lemmas for the text codecs; bounded runs with real h5py incl. native failure injection",
+            "For every container state: a new entry gets the six datasets and one attribute per fit property, "
             "the same curve again updates only the user fields, a different fit (beyond a relative tolerance) is "
             "refused without a single write, no other entry or dataset is touched, and after a failure at ANY write "
-            "point every entry is either complete or lacks 'fit' (which the loader skips); the loader reads every "
-            "complete entry without error. h5py/json/lmfit serialisation are assumed and exercised bounded.", "3 C16"),
+            "point (raw data, attributes, datasets) the real loader still returns every previously stored rating in "
+            "both modes; the loader reads every complete entry without error. h5py/json/lmfit serialisation are assumed and exercised bounded.", "3 C16"),
 }
 
 NOT_APPLICABLE = {
